@@ -4,4 +4,6 @@ go 1.21
 
 require github.com/gobuffalo/plush/v5 v5.0.0
 
+require github.com/gobuffalo/flect v1.0.2 // indirect
+
 replace github.com/gobuffalo/plush/v5 => /repo
